@@ -117,7 +117,7 @@ func (lo *layouter) apply(m []Field, keepOrder bool) []Field {
 			default:
 				f = fv(n, uint64(lo.rng.Intn(300)))
 			}
-			// fixed32/fixed64 unknown fields are included since fix e98d69a in /repo (protoscan v0.2.1
+			// fixed32/fixed64 unknown fields are included since fix 29230da in /repo (protoscan v0.2.1
 			// Message.Skip reports io.ErrUnexpectedEOF for a fixed-width field that ends a message; the
 			// decoder now skips those itself); the insertion position below may be the end of the message.
 			at := lo.rng.Intn(len(m) + 1)
